@@ -74,7 +74,9 @@ def run(ctx) -> None:
             defs = DEFS[pt["ndef"]]
             src = program(pt["mapping"], pt["ndef"], k)
             tasks.append({"entry": pt["entry"], "src": src, "format": pt["format"], "mapping": pt["mapping"], "header": pt["header"],
-                          "defines": defs, "define_texts": DEF_TEXTS[pt["ndef"]], "symfile": True, "assemble_takes_mapping": True})
+                          "defines": defs, "define_texts": DEF_TEXTS[pt["ndef"]], "symfile": True, "assemble_takes_mapping": True,
+                          # every other program reaches Program.assemble with the mapping set on the resolver instead of passed
+                          "via_rom_type": pt["entry"] == "assemble" and k % 2 == 1})
             pre = "".join(f"{n} := {v}\n" for n, v in defs.items())
             tasks.append({"entry": "string", "src": pre + src, "mapping": pt["mapping"]})
             meta.append((pt, k))
